@@ -89,6 +89,16 @@ def enumerate {α} (l : List α) : List (Int × α) := enumerateFrom 0 l
 /-- `s[n:]` for `n ≥ 0` -/
 def sliceFrom {α} (l : List α) (n : Int) : List α := l.drop n.toNat
 
+/-- `range(a, b)` -/
+def range (a b : Int) : List Int := (List.range (b - a).toNat).map fun i => a + Int.ofNat i
+
+/-- `itertools.combinations(l, r)`: the r-element sub-sequences in lexicographic order of positions -/
+def combinationsNat {α} : List α → Nat → List (List α)
+  | _, 0 => [[]]
+  | [], _ + 1 => []
+  | a :: l, r + 1 => (combinationsNat l r).map (a :: ·) ++ combinationsNat l (r + 1)
+def combinations {α} (l : List α) (r : Int) : List (List α) := if r < 0 then [] else combinationsNat l r.toNat
+
 /-- `functools.reduce(f, xs)` without initial value -/
 def reduce {α} (f : α → α → α) : List α → M α
   | [] => throw "TypeError"
